@@ -142,7 +142,10 @@ def dtype_name(df, c):
 class C05(core.Prop):
     pid = 'C05'
     lean_modules = ['TddaVerif.Props.C05']
-    theorems = []
+    theorems = ['TddaVerif.Props.C05.' + t for t in [
+        'typesMatch_iff', 'typesMatch_refl', 'typesMatch_symm', 'typesMatch_strict_to_medium',
+        'typesMatch_medium_to_permissive', 'check_iff_agree', 'copy_passes', 'rowcount_fails', 'missing_column_fails',
+        'extra_column_fails', 'wrong_type_fails', 'wrong_order_fails', 'value_difference_fails', 'swap_changes_order']]
     quick_n = 400
     thorough_n = 12000
     rule = ('cases: a reference frame of 1..4 columns x 0..6 rows over 15 dtype families with nulls, and an actual frame '
@@ -152,6 +155,12 @@ class C05(core.Prop):
             'type_matching x {in memory, parquet file, CSV file}; plus all pairs of dtype names for types_match. '
             'non-trivial = a real mutation; distinct by content')
     trusted_base = [
+        'Model/CheckPandas.lean is a hand translation of types_match / loosen_type / resolve_option_flag / the structure '
+        'checks and the verdict of check_dataframe; tied by the c05.types_match / c05.loosen ops on all pairs of 18 dtype '
+        'names x levels, and by c05.structure / c05.check on every generated pair of frames (the reporters of '
+        'PandasComparison are spied on by subclassing; nothing in /repo is instrumented)',
+        'sortby and condition are not modelled (row selection happens before the row count / value comparison; the oracle '
+        'exercises them for internal errors and for the copy / mutation clauses)',
         'DataFrame.equals / round / sort_values, parquet and CSV readers are not modelled: value equality enters the '
         'model as a parameter; the oracle recomputes it cell by cell',
     ]
